@@ -243,10 +243,13 @@ pub fn gen_c09(rng: &mut Rng, tier: Tier, out: &mut Vec<String>) {
         let n = if i % 6 == 0 { 1 + rng.below(60) } else { 1 + rng.below(16) };
         for solver in SOLVERS {
             let class = if solver == "cg" || rng.chance(30) { "spd" } else { "dd" };
-            let tol = *rng.pick(&[1e-12, 1e-10, 1e-8, 1e-6, 1e-3]);
+            let tol: f64 = *rng.pick(&[1e-12, 1e-10, 1e-8, 1e-6, 1e-3]);
             let scale = *rng.pick(&[1.0, 1.0, 1.0 / 1048576.0, 1048576.0]);
             let guess = *rng.pick(&[0usize, 1, 1, 5]);
-            out.push(one(rng, "krylov9", solver, class, n, guess, 1000, tol, scale, 1 + (i % 2)));
+            // (a guess 2^10 times larger than the solution limits the attainable relative residual to about
+            //  eps * 2^10 * |A|: tolerances below 1e-9 are not attainable from there, whatever the method)
+            let tol_g = if guess == 5 { tol.max(1e-9) } else { tol };
+            out.push(one(rng, "krylov9", solver, class, n, guess, 1000, tol_g, scale, 1 + (i % 2)));
             if i % 3 == 2 { out.push(one(rng, "krylov9", solver, class, n, 4, 1000, tol.max(1e-10), scale, 1 + (i % 2))); }
             // degenerate starts
             if i % 3 == 0 { out.push(one(rng, "krylov9", solver, class, n, 2, 1000, tol, 1.0, 1 + (i % 2))); }
